@@ -2,7 +2,7 @@
 # Runs every registered check of one tier sequentially and prints one line per check (exit code, seconds).
 tier=${1:-quick}
 cd "$(dirname "$0")/.."
-for p in ${2:-C01 C02 C04 C05 C15 C16 C17 C18 C19 C20}; do
+for p in ${2:-C01 C02 C03 C04 C05 C07 C08 C10 C13 C14 C15 C16 C17 C18 C19 C20}; do
   t0=$(date +%s)
   ./check $p --tier $tier > /tmp/run_all_$p.log 2>&1
   rc=$?
